@@ -20,11 +20,15 @@ RULE = ('cases: add_/sub_/mul_/div_/pow_/gt_/ge_/lt_/le_ on 2 operands, each a f
         'float.hex() and can never match the model. Observed: kind, index, columns, every cell; compared in Coq with the model '
         'M_tsops on the alignment model M_align; the oracle recomputes the result from the statement (Python sets + Fractions). '
         'non-trivial = at least two timeseries operands with different, overlapping indices, or a zero divisor; distinct by input')
-EXPLANATION = ('theorems C08_* (coq/props/C08.v) hold for every cell operation opc (a Section parameter), every pair/list of series and '
-               'every index policy: result index = intersection/union, result[t] = opc a[t] b[t] with NaN where an operand is absent, '
-               'scalar broadcast, left-to-right reduction, neutral element for outer-joined columns, zero divisor -> NaN, commutativity '
-               'given opc commutative, df_sum/df_mean/df_count = NaN-skipping aggregates; the correspondence ties the model (exact '
-               'integer instances of opc) to pandas arithmetic and the presync column dispatch of the current tree')
+EXPLANATION = ('theorems C08_* (coq/props/C08.v) hold for every cell operation opc (a Section parameter), every pair/list of series, every '
+               'pair of multi-column DataFrames and every index / column policy: result index = intersection/union (first/last), result '
+               'columns = intersection/union (first/last) of the column sets, result[t, x] = opc a[t, x] b[t, x] with NaN where an operand '
+               'lacks t and the kernel default (0 for add_/sub_, 1 for mul_/div_) where a frame lacks column x - proved through the model of '
+               "presync's per-column dispatch and _convert's frame assembly (C08_frame_index, C08_frame_pointwise, C08_oj_neutral_column, "
+               'C08_frame_comm) - scalar broadcast, left-to-right reduction, zero divisor -> NaN, commutativity given opc commutative, '
+               'df_sum/df_mean/df_count = NaN-skipping aggregates; C08_operator_instances instantiates the pointwise law with the concrete '
+               'cell operations of pow_, the comparisons and min_/max_; the correspondence ties the model (exact integer instances of opc) '
+               'to pandas arithmetic and the presync column dispatch of the current tree')
 TRUSTED = ['modelled, not verified: pandas/numpy elementwise float arithmetic and comparisons on aligned Series (exact on the generated '
            'integer-valued operands), np.minimum/np.maximum NaN propagation, numpy nan**0 = 1**nan = 1, DataFrame assembly from a dict of '
            'Series, boolean masks; everything listed for C03 (alignment model)',
@@ -481,12 +485,15 @@ def shrink(case):
                 new = list(xs); new[i] = v
                 yield dict(case, xs=new)
 
-LEVEL_TEXT = ('machine-checked Coq theorems (C08_*, for every cell operation, every series and every index policy, no bound): index = '
-              'intersection/union, pointwise law with NaN for absent operands, scalar broadcast, left-to-right reduction, neutral element '
-              'for outer-joined columns, zero divisor -> NaN, commutativity, NaN-skipping sum/mean/count; the model (exact-integer '
-              'instances) is compared inside Coq with add_/sub_/mul_/div_/pow_/comparisons/min_/max_/df_sum/df_mean/df_count of the current '
-              'tree on thousands of generated operand tuples, and a property-level oracle recomputes every cell with Fractions')
+LEVEL_TEXT = ('machine-checked Coq theorems (C08_*, for every cell operation, every series / pair of multi-column DataFrames and every index '
+              'and column policy, no bound): index = intersection/union, columns = intersection/union, pointwise law with NaN for absent '
+              'timestamps and the neutral default for absent columns (frame assembly included), scalar broadcast, left-to-right reduction, '
+              'zero divisor -> NaN, commutativity, NaN-skipping sum/mean/count, concrete instances for pow_/comparisons/min_/max_; the model '
+              '(exact-integer instances) is compared inside Coq with add_/sub_/mul_/div_/pow_/comparisons/min_/max_/df_sum/df_mean/df_count of '
+              'the current tree on thousands of generated operand tuples, and a property-level oracle recomputes every cell with Fractions')
 LEVEL_NOTE = ('trusted: Coq kernel/vm_compute; modelled not verified: pandas/numpy float arithmetic on aligned operands (compared exactly on '
-              'integer-valued data), DataFrame assembly; builds on the C03 alignment model. div_(x, 0) with a scalar zero divisor is repaired '
-              'by fixes/C08.patch (returned the scalar nan, losing the index)')
+              'integer-valued data), DataFrame construction from a dict of Series; builds on the C03 alignment model. Mixed Series x DataFrame '
+              'operands, single-column frames and df_sum/df_mean/df_count on DataFrames are covered by the same model through the '
+              'correspondence only (theorems are stated for Series lists and for pairs of multi-column frames). div_(x, 0) with a scalar '
+              'zero divisor was repaired (fixes/C08.patch; C08_div_scalar_zero_pinned_refuted records the old behaviour)')
 TECHNIQUE = 'Coq proof (induction over association lists, generic in the cell operation) + differential correspondence in vm_compute + exact Fraction oracle'
